@@ -143,7 +143,7 @@ class Gen:
         self.p = p
         self.uchars = ['a', 'b', 'c', 'd']
         self.schars = ['sa', 'sb'] if o['signed'] and r.random() < 0.4 else []
-        self.shorts = ['s', 't'] if o['shorts'] and r.random() < 0.5 else []
+        self.shorts = ['s', 't'] if o['shorts'] == 'always' or (o['shorts'] and r.random() < 0.5) else []
         self.arrays = ['arr'] if o['arrays'] and r.random() < 0.6 else []
         self.tables = ['tab'] if o['arrays'] and r.random() < 0.5 else []
         self.counters = ['i', 'j']
@@ -406,7 +406,7 @@ class Gen:
     def stmts(self, n, depth):
         out = []
         for _ in range(n):
-            if self.o.get('bait') and self.r.random() < 0.25:
+            if self.o.get('bait') and self.r.random() < self.o.get('bait_p', 0.25):
                 out.extend(self.bait())
             else:
                 out.append(self.stmt(depth))
@@ -423,7 +423,20 @@ class Gen:
         reg = r.choice(['X', 'Y'])
         if self.in_loop and reg not in self.free_counters:
             reg = None
-        k = r.randrange(13)
+        k = r.randrange(15)
+        if k >= 13:
+            # an update immediately followed by a zero test of the same object (8 or 16 bits, or an
+            # array element): the flags of the update must describe the whole object
+            cands = [u()]
+            if self.shorts:
+                cands += [V(r.choice(self.shorts))] * 3
+            if self.arrays and reg:
+                cands.append(('idx', r.choice(self.arrays), V(reg)))
+            x = r.choice(cands)
+            upd = r.choice([('expr', ('inc', r.choice(['++x', 'x++', '--x', 'x--']), x)),
+                            ('expr', ('asg', r.choice(['+=', '-=']), x, N(1)))])
+            tst = r.choice([x, ('bin', '!=', x, N(0)), ('bin', '==', x, N(0)), ('un', '!', x)])
+            return [upd, ('if', tst, ('block', [asg(u(), N(8))]), ('block', [asg(u(), N(9))]))]
         if k == 12:
             # a subtraction (sets the carry), then ++/-- of a byte, then that byte ordered against 0
             v, w, x = u(), u(), u()
